@@ -161,15 +161,7 @@ func runC08(c *sim.Ctx) *sim.Violation {
 			// that itself wraps io.EOF or io.ErrUnexpectedEOF (as net.OpError or a TLS
 			// layer does): it is still the transport's failure, and errors.Is(err, E)
 			// must hold for THAT value
-			switch t.Pick(4, 1, 1) {
-			case 0:
-				E = errors.New(fmt.Sprintf("link failure #%d", c.Seq()))
-			case 1:
-				E = &wrappedErr{msg: fmt.Sprintf("link failure #%d: connection lost", c.Seq()), inner: io.EOF}
-				c.Count("probe.transport-error-that-wraps-io.EOF")
-			default:
-				E = &wrappedErr{msg: fmt.Sprintf("link failure #%d: short read", c.Seq()), inner: io.ErrUnexpectedEOF}
-			}
+			E, _ = link.NewFaultErr(c, fmt.Sprintf("link failure #%d", c.Seq()))
 			kindName = "E"
 		}
 		stream := append(append([]byte{}, prefixFrame...), frame...)
